@@ -14,7 +14,7 @@ from prosemirror.model.to_dom import DOMSerializer
 from prosemirror.transform import Mapping, ReplaceStep, StepMap, Transform
 
 PROPERTY = "C10"
-BOUNDS = ("catalogue documents of the list/strict/iso schemas; 21 Transform operation kinds and 25 model/step/mapping/"
+BOUNDS = ("catalogue documents of the list/strict/iso schemas; 21 Transform operation kinds and 26 model/step/mapping/"
           "serialisation operations, each with symbolic integer arguments; live set = template, slice/node/mark "
           "catalogues, one step with its map, Transform prefix, singletons")
 ASSUMPTIONS = ["sequences of operations follow by induction (no operation keeps hidden state besides the two accumulators); not discharged by the solver",
@@ -50,6 +50,7 @@ def _snap(C, tr, n0):
         "step": json.dumps(LIVE["step"].to_json(), sort_keys=True),
         "map": list(LIVE["map"].ranges),
         "mapping": [list(m.ranges) for m in LIVE["mapping"].maps],
+        "mirrored": ([list(m.ranges) for m in LIVE["mirrored"].maps], list(LIVE["mirrored"].mirror or []), LIVE["mirrored"].from_, LIVE["mirrored"].to),
     }
     if tr is not None:
         n0 = len(tr.steps) if n0 is None else n0
@@ -75,6 +76,10 @@ def make_live(C):
     LIVE["step"] = ReplaceStep(1, 1, C.slices[0])
     LIVE["map"] = LIVE["step"].get_map()
     LIVE["mapping"] = Mapping([LIVE["map"], StepMap([0, 1, 2])])
+    mm = Mapping()
+    mm.append_map(StepMap([1, 2, 0]))
+    mm.append_map(StepMap([1, 0, 2]), 0)
+    LIVE["mirrored"] = mm
     LIVE["ser"] = DOMSerializer.from_schema(C.schema) if C.schema_name in ("list", "basic") else None
 
 
@@ -128,7 +133,9 @@ def model_ops(C):
         ("map_ops", lambda a, b, x: (mp.map(a), mp.map_result(b, -1), mp.invert().map(a), mp.for_each(lambda *k: None))),
         ("mapping_read", lambda a, b, x: (mg.map(a), mg.map_result(b, -1), mg.slice(0, 1).map(a), mg.invert().map(b), mg.copy().append_map(StepMap([a, 0, 1])))),
         ("mapping_append", lambda a, b, x: Mapping().append_mapping(mg)),
-        ("mapping_append_inv", lambda a, b, x: Mapping([StepMap([0, 0, 1])]).append_mapping_inverted(mg)),
+        ("mapping_copy_mirror", lambda a, b, x: (LIVE["mirrored"].copy().append_map(StepMap([2, 0, 1]), 1), LIVE["mirrored"].slice(0, 1).copy().append_map(StepMap([3, 1, 0]), 0),
+                                                 LIVE["mirrored"].invert().append_map(StepMap([1, 1, 1]), 0), Mapping().append_mapping(LIVE["mirrored"]),
+                                                 Mapping([StepMap([0, 0, 1])]).append_mapping_inverted(LIVE["mirrored"]), LIVE["mirrored"].map(2), LIVE["mirrored"].map_result(1, -1))),
         ("json_mutate", lambda a, b, x: (d.to_json()["content"].append(1), C.nodes[x % len(C.nodes)].to_json().update(attrs=1),
                                          [m.to_json()["attrs"].update(zz=1) for m in C.marks])),
         ("check_eq", lambda a, b, x: (d.check(), d.eq(d.copy(d.content)), d.content.find_diff_start(d.content.cut(0, a)))),
